@@ -443,6 +443,8 @@ def snapshot(v, memo=None):
         memo[i] = c
         c.fields = {k: snapshot(x, memo) for k, x in v.fields.items()}
         return c
+    elif hasattr(v, "__pyvc_snapshot__"):
+        c = v.__pyvc_snapshot__(memo)
     elif isinstance(v, tuple):
         c = tuple(snapshot(x, memo) for x in v)
     elif isinstance(v, dict):
